@@ -548,6 +548,41 @@ func asmLabelName(sym string) string {
 	return asmLabelNames[0]
 }
 
+// asmLongProgram: one deterministic call sequence of n alphabet symbols (every symbol occurs, labels are
+// defined once and then refused, references pile up on both labels, several data blocks): the short
+// histories never make the emitter's internal lists grow past their first few capacity steps.
+func asmLongProgram(n, salt int) []asmOp {
+	al := asmAlphabet()
+	byName := map[string]asmOp{}
+	for _, o := range al {
+		byName[o.name] = o
+	}
+	ops := make([]asmOp, 0, n)
+	for k := 0; k < n; k++ {
+		o := al[(k*7+salt*3+k/5+k*k/11)%len(al)]
+		if salt%2 == 1 && o.refS8 {
+			// odd salts: no 8-bit branches (over such distances they are out of range and Finalize would
+			// only ever fail); their place is taken by absolute jumps to the same label, so Finalize succeeds
+			// and its patched bytes can be compared
+			sym := "a"
+			if o.refLabel == asmLabelNames[1] {
+				sym = "b"
+			}
+			o = byName["JMP_abs("+sym+")"]
+		}
+		ops = append(ops, o)
+	}
+	return ops
+}
+
+func opNames(ops []asmOp) []string {
+	out := make([]string, len(ops))
+	for i, o := range ops {
+		out[i] = o.name
+	}
+	return out
+}
+
 // forEachHistory enumerates all op sequences up to depth (every non-empty prefix is visited once).
 func forEachHistory(depth int, f func(idx []int)) {
 	n := len(asmAlphabet())
